@@ -609,3 +609,51 @@ Proof.
   destruct (rmap quote_path_segment segs) as [qs|e|]; cbn [rbind]; try discriminate.
   destruct qs as [|q qs]; cbn [join]; intros H; inversion H; reflexivity.
 Qed.
+
+(* ------------------------------------------------------------ re-entrancy, with the ORDER premise regenerated *)
+(* [memo_calls_precede_walk] (Gen/Facts_C02.v) is computed by the translator while it walks __call__ in program
+   order: true iff no memoised module function is called once the walk loop has been entered (nor after it).  That is
+   the reading [reentrant_req_st] (Proofs/C02_memo.v) builds on: the request's own cache accesses first, then whatever
+   the item lookups do.  If a later edit calls split_path_info inside the loop the fact flips and this proof fails. *)
+Lemma memo_calls_precede_walk_ok : memo_calls_precede_walk = true.
+Proof. reflexivity. Qed.
+
+Theorem reentrant_request_derived :
+  memo_calls_precede_walk = true /\
+  forall inner C root q, caches_ok C ->
+    let '(v, ans, C2) := reentrant_req_st inner C root q in
+    v = gen_call root q /\
+    ans = map pure_op (inner_ops inner root
+            (match gen_call_preamble q with Ok (_, path, _, vt, _) => vt ++ gen_split_path_info path | _ => [] end)) /\
+    caches_ok C2 /\ forall later, run_ops_st C2 later = map pure_op later.
+Proof.
+  split; [exact memo_calls_precede_walk_ok|].
+  intros inner C root q H. pose proof (reentrant_request_history_free inner C root q H) as R.
+  destruct (reentrant_req_st inner C root q) as [[v ans] C2].
+  rewrite gen_call_is_model, gen_call_preamble_is_model.
+  destruct R as (R1 & R2 & R3 & R4). split; [exact R1|]. split; [|split; [exact R3|exact R4]].
+  rewrite R2. f_equal. f_equal.
+  destruct (call_preamble q) as [[[[[vp path] sub] vt] vi]| |]; try reflexivity.
+  rewrite gen_split_path_info_is_model. reflexivity.
+Qed.
+
+(* ------------------------------------------------------------ what a route pattern captured, computed in the model *)
+Lemma strip_prefix_app p r : strip_prefix p (p ++ r) = Some r.
+Proof. apply strip_prefix_spec. reflexivity. Qed.
+
+(* the remainder handed to split_path_info is exactly the decoded PATH_INFO without the pieces in front of it *)
+Theorem route_remainder_spec decoded pieces rem :
+  route_remainder decoded pieces = Some rem <-> decoded = concat pieces ++ rem.
+Proof. unfold route_remainder. apply strip_prefix_spec. Qed.
+
+Theorem route_remainder_none decoded pieces :
+  route_remainder decoded pieces = None -> forall rem, decoded <> concat pieces ++ rem.
+Proof.
+  intros H rem E. apply (proj2 (route_remainder_spec decoded pieces rem)) in E. congruence.
+Qed.
+
+Example route_remainder_example :
+  route_remainder [47; 113; 47; 97; 47]%N [[47; 113; 47]%N; [97]%N; [47]%N] = Some [] /\
+  route_remainder [47; 113; 47; 97; 47; 120; 47; 46; 46]%N [[47; 113; 47]%N; [97]%N; [47]%N] = Some [120; 47; 46; 46]%N /\
+  route_piece [47; 121; 47; 97; 58; 98; 47; 99]%N 2 = [97; 58; 98]%N.
+Proof. vm_compute. repeat split. Qed.
